@@ -113,6 +113,12 @@ func c02Diff(a, b c02Snapshot, ignoreLastRecv, ignorePending bool) string {
 
 type c02Creds struct{ localU, localP, remoteU, remoteP string }
 
+type c02ValidReq struct {
+	txid  [stun.TransactionIDSize]byte
+	srcAt netip.AddrPort
+	to    *simSock
+}
+
 type c02Outstanding struct {
 	txid    [stun.TransactionIDSize]byte
 	src     *simSock
@@ -133,6 +139,9 @@ func c02Classify(raw []byte, srcAt netip.AddrPort, to *simSock, cr c02Creds, kno
 	nt := NetworkTypeUDP4
 	if to.priv.Addr().Is6() {
 		nt = NetworkTypeUDP6
+	}
+	if to.kind == simKindTCPHost {
+		nt = NetworkTypeTCP4
 	}
 	known := knownRemotes[fmt.Sprintf("%s|%s|%d", nt, srcAt.Addr().Unmap(), srcAt.Port())]
 	if m.Type.Method != stun.MethodBinding {
@@ -167,7 +176,7 @@ func c02Classify(raw []byte, srcAt netip.AddrPort, to *simSock, cr c02Creds, kno
 		for _, o := range outstanding {
 			// (the property ties a response to the remote address the request was sent to; which local
 			// candidate receives it is not part of C02 — see D20 under C03)
-			if o.txid == m.TransactionID && !o.expired && o.dst == srcAt {
+			if o.txid == m.TransactionID && !o.expired && o.dst == srcAt && (o.src.kind == simKindTCPHost) == (to.kind == simKindTCPHost) {
 				return "effective"
 			}
 		}
@@ -191,6 +200,11 @@ func TestVerif_C02_Injection(t *testing.T) {
 			locals = append(locals, duoSockSpec{V6: true, Kind: simKindHost})
 			eps = append(eps, soloEpSpec{V6: true, Typ: CandidateTypeHost})
 		}
+		// optionally a passive TCP host candidate, with endpoint 0 reachable over TCP at the same ip:port
+		withTCP := rapid.IntRange(0, 2).Draw(rt, "withTCP") == 0
+		if withTCP {
+			locals = append(locals, duoSockSpec{Kind: simKindTCPHost})
+		}
 		s, err := newSoloSim(cfg, locals, eps)
 		if err != nil {
 			rt.Fatalf("harness: %v", err)
@@ -209,6 +223,15 @@ func TestVerif_C02_Injection(t *testing.T) {
 		if withV6 {
 			_ = s.ag.addRemoteSync(s.epCandidate(3, eps[3]))
 		}
+		signalTCP := func() {
+			if withTCP {
+				ap := s.eps[0].pub
+				if tc, err := NewCandidateHost(&CandidateHostConfig{Network: "tcp", Address: ap.Addr().String(), Port: int(ap.Port()), Component: 1, TCPType: TCPTypePassive}); err == nil {
+					_ = s.ag.addRemoteSync(tc)
+				}
+			}
+		}
+		signalTCP()
 		prev := c02Creds{}
 		var answered [][stun.TransactionIDSize]byte
 		var oldOutstanding []c02Outstanding // unanswered checks of a generation ended by Restart
@@ -281,6 +304,7 @@ func TestVerif_C02_Injection(t *testing.T) {
 			}
 			_ = s.ag.addRemoteSync(s.epCandidate(0, eps[0]))
 			_ = s.ag.addRemoteSync(s.epCandidate(1, eps[1]))
+			signalTCP()
 			if phase == "restarted" {
 				s.ag.tick()
 			}
@@ -321,6 +345,7 @@ func TestVerif_C02_Injection(t *testing.T) {
 			cur.remoteU, cur.remoteP = "", ""
 		}
 
+		var recentValid []c02ValidReq // requests the agent authenticated (and answered) earlier in this case
 		nInject := rapid.IntRange(1, 10).Draw(rt, "nInject")
 		for inj := 0; inj < nInject; inj++ {
 			// ---- template
@@ -363,7 +388,7 @@ func TestVerif_C02_Injection(t *testing.T) {
 					"user-swapped", "user-wrong-local", "user-wrong-remote", "user-prev-gen", "user-absent", "user-empty", "user-prefix",
 					"key-other-side", "key-prev-gen", "key-random", "key-absent", "corrupt-byte", "truncate",
 					"class-indication", "class-error", "class-flip", "method", "txid-random", "txid-answered",
-					"src-other-known", "src-unknown", "src-other-family", "src-port",
+					"src-other-known", "src-unknown", "src-other-family", "src-port", "to-other-transport", "replay-authenticated-request-unsigned",
 				}).Draw(rt, "mutation")
 				muts = append(muts, mu)
 				switch mu {
@@ -440,6 +465,24 @@ func TestVerif_C02_Injection(t *testing.T) {
 					}
 				case "src-port":
 					srcAt = netip.AddrPortFrom(srcAt.Addr(), srcAt.Port()+1)
+				case "replay-authenticated-request-unsigned":
+					// a retransmission look-alike: transaction id, source and destination of a request the agent has
+					// just authenticated and answered, but without a valid MESSAGE-INTEGRITY
+					if len(recentValid) > 0 {
+						rv := recentValid[rapid.IntRange(0, len(recentValid)-1).Draw(rt, "whichValid")]
+						class, method, txid, srcAt, to = stun.ClassRequest, stun.MethodBinding, rv.txid, rv.srcAt, rv.to
+						username = cur.localU + ":" + cur.remoteU
+						key = rapid.SampledFrom([]string{"", "randomPasswordRandomPassword00"}).Draw(rt, "replayKey")
+					}
+				case "to-other-transport":
+					// the same ip:port is the peer's UDP and TCP endpoint: the message arrives over the other transport
+					for _, sk := range s.ag.socks {
+						if (sk.kind == simKindTCPHost) != (to.kind == simKindTCPHost) && sk.priv.Addr().Is4() == to.priv.Addr().Is4() {
+							to = sk
+
+							break
+						}
+					}
 				}
 			}
 			// ---- build
@@ -529,6 +572,9 @@ func TestVerif_C02_Injection(t *testing.T) {
 					st.Fail(rt, "C02/liveness-only/state-changed", "%s: %s", desc, df)
 				}
 			case "effective":
+				if class == stun.ClassRequest {
+					recentValid = append(recentValid, c02ValidReq{txid: txid, srcAt: srcAt, to: to})
+				}
 				if nMut == 0 && class == stun.ClassRequest {
 					// sanity of the harness: the unmodified template must be answered, otherwise near-misses are not near
 					ok := false
